@@ -8,11 +8,12 @@ C06 on the generated schema and the real converters.
                               `EntityFree` on every caller-supplied text.
 * `C06_compose_full(_false)`— without the guard the statement is false: password `&amp;` is sent as `&`
                               (`String.convert` unescapes at construction) — known finding string-entity-unescaped.
-* `C06_tax_full(_false)`    — `request_tax1099(acctnum="777")` never places the account number — known finding
-                              tax1099-acctnum-dropped.  (`C06_tax_acctnum_ignored` in Props/C06.lean is the general fact.)
+* `C06_tax_generated`       — the tax request (finding tax1099-acctnum-dropped is fixed in /repo; `tax_witness` replays its
+                              witness `acctnum="777"`, which now satisfies the whole tax spec).
 -/
 import OfxProofs.Props.C06
 import OfxProofs.Lemmas.Str
+import OfxProofs.Gen.C01
 import OfxModel.Generated.Schema
 
 namespace Ofx.Gen
@@ -90,40 +91,120 @@ theorem C06_compose_full_false : ¬ C06_compose_full := by
     rw [show (Int.ofNat wCfg.version) = 203 from rfl, hw] at this
     cases this
 
-/-- the full-strength statement for the tax request -/
-def C06_tax_full : Prop :=
-  ∀ (cfg : Cfg) (password : Str) (taxyears : List Str) (acctnum recid : Option Str) (uuidStream : Nat → Str)
-    (dtclient : DT) (root : Node),
-    requestTax Ofx.Generated.schema Types.conv cfg password taxyears acctnum recid uuidStream dtclient = .ok root →
-    checkTax Ofx.Generated.schema cfg password dtclient taxyears acctnum recid (Int.ofNat cfg.version) root = []
+theorem schema_taxWF : taxWFB Ofx.Generated.schema = true := by decide +kernel
 
-/-- `request_tax1099("pw", "2019", acctnum="777")`: composes, and exactly the wrapper clause fails (no ACCTNUM) -/
+/-- **C06_tax** for the code as generated from /repo -/
+theorem C06_tax_generated (cfg : Cfg) (password : Str) (taxyears : List Str) (acctnum recid : Option Str)
+    (uuidStream : Nat → Str) (dtclient : DT) (htexts : ∀ s ∈ cfg.texts, EntityFree s) (hpw : EntityFree password)
+    (hacct : ∀ s, acctnum = some s → EntityFree s) (hrec : ∀ s, recid = some s → EntityFree s)
+    (hyears : ∀ y ∈ taxyears, ∃ j : Int, y = pyStrInt j)
+    (hu : EntityFree (uuidStream 0)) (hne : uuidStream 0 ≠ []) {root : Node}
+    (h : requestTax Ofx.Generated.schema Types.conv cfg password taxyears acctnum recid uuidStream dtclient
+      = .ok root) :
+    checkTax Ofx.Generated.schema cfg password dtclient taxyears acctnum recid (Int.ofNat cfg.version) root = [] :=
+  C06_tax schema_reqWF schema_taxWF conv_ok conv_year cfg password taxyears acctnum recid uuidStream dtclient htexts
+    hpw hacct hrec hyears hu hne h
+
+/-- the witness of the former finding `tax1099_acctnum_dropped`, now passing:
+    `request_tax1099("pw", "2019", acctnum="777")` composes and satisfies the whole tax spec (ACCTNUM 777 placed) -/
 theorem tax_witness :
     (match requestTax Ofx.Generated.schema Types.conv wCfg "pw".toList ["2019".toList] (some "777".toList) none
         wUuid wDt with
       | .ok root => decide (checkTax Ofx.Generated.schema wCfg "pw".toList wDt ["2019".toList] (some "777".toList)
-          none 203 root = ["wrappers.TAX1099TRNRQ"])
+          none 203 root = [])
       | .error _ => false) = true := by decide +kernel
 
-theorem C06_tax_full_false : ¬ C06_tax_full := by
-  intro hfull
-  have hw := tax_witness
-  cases hr : requestTax Ofx.Generated.schema Types.conv wCfg "pw".toList ["2019".toList] (some "777".toList) none
-      wUuid wDt with
-  | error e => rw [hr] at hw; simp at hw
-  | ok root =>
-    rw [hr] at hw
-    simp only [decide_eq_true_eq] at hw
-    have := hfull wCfg "pw".toList ["2019".toList] (some "777".toList) none wUuid wDt root hr
-    rw [show (Int.ofNat wCfg.version) = 203 from rfl, hw] at this
-    cases this
+/-! ### the wire: the composed request, written and read back -/
 
-/-- with no account number asked for, the same witness request satisfies the whole tax spec (the general statement
-    for the tax request is `C06_tax_acctnum_ignored`; the positive general theorem is not proved: `TAX1099RQ` is an
-    `ElementList`) -/
-theorem C06_tax_partial_witness :
-    (match requestTax Ofx.Generated.schema Types.conv wCfg "pw".toList ["2019".toList] none none wUuid wDt with
-      | .ok root => decide (checkTax Ofx.Generated.schema wCfg "pw".toList wDt ["2019".toList] none none 203 root = [])
-      | .error _ => false) = true := by decide +kernel
+theorem schema_wireWF : WireWF Ofx.Generated.schema = true := by decide +kernel
+
+theorem schema_enumsPlain : enumsPlainB Ofx.Generated.schema.enums = true := by decide +kernel
+
+/-- what `OFXClient.serialize` takes from outside the client, as the round-trip environment has it -/
+def envOf (E : Ofx.Pipeline.Env) : Ofx.Compose.Env := { p1 := E.p1, p2 := E.p2, htmlEmpty := E.htmlEmpty }
+
+/-- `Pipeline.writeFile` is `OFXClient.serialize` (as modelled by `serializeReq`) followed by the utf-8 encoding -/
+theorem writeFile_serializeReq (E : Ofx.Pipeline.Env) (cfg : Cfg) (root : Node) (new : Option Str) :
+    Ofx.Pipeline.writeFile E cfg.version none new cfg.prettyprint cfg.closeElements root =
+      (serializeReq E.S E.cv (envOf E) cfg root none none new none none >>=
+        fun text => Ofx.Codec.encode E.cp1252 .utf8 text) := by
+  simp only [Ofx.Pipeline.writeFile, serializeReq, envOf, orDefault, bind, Except.bind]
+  cases Ofx.Header.makeHeader E.p1 E.p2 (.int (cfg.version : Nat)) none none new with
+  | error e => rfl
+  | ok hdr =>
+    simp only
+    cases Ofx.Agg.toEtree E.S E.cv root with
+    | error e => rfl
+    | ok tree => first | rfl | simp only
+
+/-- **the composed statement request is a valid instance of the generated schema** (values in the wire domain) -/
+theorem C06_request_valid (cfg : Cfg) (password : Str) (reqs : List Req) (uuidStream : Nat → Str) (dtclient : DT)
+    (htexts : ∀ s ∈ cfg.texts, WireText s) (hpw : WireText password)
+    (hreqs : ∀ r ∈ reqs, ∀ s ∈ r.texts, WireText s)
+    (hdates : ∀ r ∈ reqs, ∀ d ∈ r.dates, Ofx.DateTime.dtUtcMs d) (hdt : Ofx.DateTime.dtUtcMs dtclient)
+    (huP : ∀ i, WireText (uuidStream i)) {root : Node}
+    (h : requestStatements Ofx.Generated.schema Types.conv cfg password reqs uuidStream dtclient = .ok root) :
+    Ofx.Agg.Valid genEnv.S genEnv.cv Ofx.escapeCdata (Ofx.Types.typesDomWire genEnv.S.enums) root :=
+  requestStatements_valid schema_reqWF schema_wireWF conv_ok_wire
+    (types_convInto _ schema_enumsPlain) (Ofx.Types.typesConv_laws_wire _) cfg password reqs uuidStream dtclient
+    htexts hpw hreqs hdates hdt huP h
+
+/-- **C06_wire_closed** — `RoundTrip` discharged for the closed forms (`close_elements=True`, every supported
+    version, plain or pretty): for every configuration and request list for which composition succeeds, the file
+    `request_statements(dryrun=True)` returns (header of `cfg.version` with the n-th uuid as NEWFILEUID, body by
+    `ET.tostring(method="html")`, utf-8) is read back by `OFXTree.parse` + `convert` to exactly that header and exactly
+    the composed instance — which satisfies `RequestSpec`.  Guards: caller texts `WireText` (entity-free, trimmed),
+    dates UTC at millisecond resolution (what the OFX notation can carry), NEWFILEUID within the header's limits. -/
+theorem C06_wire_closed (cfg : Cfg) (password : Str) (reqs : List Req) (uuidStream : Nat → Str) (dtclient : DT)
+    (hclose : cfg.closeElements = true)
+    (htexts : ∀ s ∈ cfg.texts, WireText s) (hpw : WireText password)
+    (hreqs : ∀ r ∈ reqs, ∀ s ∈ r.texts, WireText s)
+    (hdates : ∀ r ∈ reqs, ∀ d ∈ r.dates, Ofx.DateTime.dtUtcMs d) (hdt : Ofx.DateTime.dtUtcMs dtclient)
+    (huuid : ∀ i j, uuidStream i = uuidStream j → i = j) (hne : ∀ i, uuidStream i ≠ [])
+    (huP : ∀ i, WireText (uuidStream i))
+    (hn1 : Ofx.Header.UidOk genEnv.p1.newLen (some (uuidStream reqs.length)))
+    (hn2 : Ofx.Header.UidOk genEnv.p2.newLen (some (uuidStream reqs.length)))
+    {root : Node}
+    (h : requestStatements Ofx.Generated.schema Types.conv cfg password reqs uuidStream dtclient = .ok root)
+    {hdr : Ofx.Header.Hdr}
+    (hmk : Ofx.Header.makeHeader genEnv.p1 genEnv.p2 (.int (cfg.version : Nat)) none none
+      (some (uuidStream reqs.length)) = .ok hdr) :
+    ∃ file, Ofx.Pipeline.writeFile genEnv cfg.version none (some (uuidStream reqs.length)) cfg.prettyprint
+        cfg.closeElements root = .ok file ∧
+      Ofx.Pipeline.readFile genEnv file = .ok (hdr, root) ∧
+      hdrVersion hdr = Int.ofNat cfg.version ∧
+      RequestSpec Ofx.Generated.schema cfg password dtclient reqs (hdrVersion hdr) root := by
+  have hv := C06_request_valid cfg password reqs uuidStream dtclient htexts hpw hreqs hdates hdt huP h
+  obtain ⟨file, hw, hr⟩ := C01_generated_closed cfg.version none (some (uuidStream reqs.length)) uid1o hn1 uid2o hn2
+    cfg.prettyprint root hv hdr hmk
+  have hver := makeHeader_version _ _ _ _ _ _ _ hmk
+  refine ⟨file, by rw [hclose]; exact hw, hr, hver, ?_⟩
+  rw [hver]
+  exact C06_compose_generated cfg password reqs uuidStream dtclient (fun s hs => (htexts s hs).1) hpw.1
+    (fun r hr s hs => (hreqs r hr s hs).1) huuid hne (fun i => (huP i).1) h
+
+/-- the guards of `C06_wire_closed` are satisfiable: the witness configuration, a password, a UTC instant, the uuid
+    stream, and a request list for which composition succeeds -/
+example : (∀ s ∈ wCfg.texts, WireText s) ∧ WireText "pass".toList ∧ Ofx.DateTime.dtUtcMs wDt ∧
+    (∀ i, WireText (wUuid i)) ∧ Ofx.Header.UidOk genEnv.p1.newLen (some (wUuid 1)) ∧
+    (requestStatements Ofx.Generated.schema Types.conv wCfg "pass".toList
+      [.ccStmt (some "123".toList) (some wDt) none (some true)] wUuid wDt).toBool = true := by
+  refine ⟨by decide +kernel, by decide +kernel, ?_, ?_, ?_, by decide +kernel⟩
+  · refine ⟨by decide +kernel, rfl, by decide +kernel, by decide +kernel, by decide +kernel⟩
+  · intro i
+    refine ⟨unescape_no_amp _ (by simp [wUuid, List.mem_replicate]), ?_⟩
+    simp only [Spec.Wire.trimmedB, wUuid, List.replicate_succ, List.head?_cons]
+    have : (List.replicate i 'u' ++ ['u']).getLast? = some 'u' := by simp
+    rw [show 'u' :: List.replicate i 'u' = List.replicate i 'u' ++ ['u'] from by
+      rw [← List.replicate_succ, List.replicate_succ']]
+    rw [this]
+    decide
+  · refine ⟨⟨by simp [wUuid], ?_⟩, ?_⟩
+    · intro c hc
+      simp only [wUuid, List.mem_replicate] at hc
+      rw [hc.2]; decide
+    intro n hn
+    have : genEnv.p1.newLen = some 36 := by decide +kernel
+    rw [this] at hn; injection hn with hn; subst hn; decide
 
 end Ofx.Gen
